@@ -440,11 +440,108 @@ fn byte_coverage<S: ShortGroupSignatureScheme + 'static>(em: &mut Emitter, rng: 
     }
 }
 
+/// scalars anybody can compute from a domain string (hash-to-field under common expanders and domain-separation tags,
+/// plain digests reduced mod r)
+fn public_scalars_of(domain: &[u8]) -> Vec<(String, Scalar)> {
+    use elliptic_curve::hash2curve::{ExpandMsgXmd, ExpandMsgXof};
+    use sha2::Digest;
+    let mut out = vec![];
+    for dst in [&b"BLS12381G1_XMD:SHA-256_SSWU_RO_"[..], b"BLS12381G1_XOF:SHAKE-256_SSWU_RO_", b"BLS12381G2_XMD:SHA-256_SSWU_RO_", b"BLS12381_XMD:SHA-256_RO_", b"credx", b"domain"] {
+        out.push((format!("xmd-sha256[{}]", String::from_utf8_lossy(dst)), Scalar::hash::<ExpandMsgXmd<sha2::Sha256>>(domain, dst)));
+        out.push((format!("xmd-sha512[{}]", String::from_utf8_lossy(dst)), Scalar::hash::<ExpandMsgXmd<sha2::Sha512>>(domain, dst)));
+        out.push((format!("xof-shake256[{}]", String::from_utf8_lossy(dst)), Scalar::hash::<ExpandMsgXof<sha3::Shake256>>(domain, dst)));
+        out.push((format!("xof-shake128[{}]", String::from_utf8_lossy(dst)), Scalar::hash::<ExpandMsgXof<sha3::Shake128>>(domain, dst)));
+    }
+    out.push(("shake256-wide".into(), shake_to_scalar(domain)));
+    let d512 = sha2::Sha512::digest(domain);
+    let mut w = [0u8; 64];
+    w.copy_from_slice(&d512);
+    out.push(("sha512-wide".into(), Scalar::from_bytes_wide(&w)));
+    let d256 = sha2::Sha256::digest(domain);
+    let mut w = [0u8; 64];
+    w[..32].copy_from_slice(&d256);
+    out.push(("sha256-low".into(), Scalar::from_bytes_wide(&w)));
+    let mut w = [0u8; 64];
+    w[32..].copy_from_slice(&d256);
+    out.push(("sha256-high".into(), Scalar::from_bytes_wide(&w)));
+    let d3 = sha3::Sha3_256::digest(domain);
+    let mut w = [0u8; 64];
+    w[..32].copy_from_slice(&d3);
+    out.push(("sha3-256-low".into(), Scalar::from_bytes_wide(&w)));
+    out
+}
+
+/// pseudonyms of one credential under the generators of two verifier domains (`create_domain_proof_generator`): they are
+/// unrelated only if nobody knows a scalar relating the generators. Catalogue test: for every publicly computable scalar
+/// pair (k_A, k_B) of the two domain strings, pseudonym_B ≠ (k_B / k_A)·pseudonym_A, and no domain generator is k·G or
+/// k·(another domain generator) for a catalogued k.
+fn domain_pseudonyms<S: ShortGroupSignatureScheme + 'static>(em: &mut Emitter, rng: &mut Rng, suite: &str) {
+    let domains: Vec<Vec<u8>> = vec![b"verifier-a.example".to_vec(), b"verifier-b.example".to_vec(), b"".to_vec(), rng.bytes(40)];
+    let gens: Vec<G1Projective> = domains.iter().map(|d| credx::create_domain_proof_generator(d)).collect();
+    let pubs: Vec<Vec<(String, Scalar)>> = domains.iter().map(|d| public_scalars_of(d)).collect();
+    for i in 0..domains.len() {
+        em.oracle_case(&format!("{} domain-generator {}", suite, i));
+        if bool::from(gens[i].is_identity()) {
+            em.violation("c10:domain-generator-identity", format!("domain generator of {:?} is the identity", hexs(&domains[i])), json!({"domain": hexs(&domains[i])}));
+        }
+        if credx::create_domain_proof_generator(&domains[i]) != gens[i] {
+            em.violation("c10:domain-generator-unstable", "the same domain string gave two generators".to_string(), json!({"domain": hexs(&domains[i])}));
+        }
+        for (name, k) in &pubs[i] {
+            if gens[i] == G1Projective::GENERATOR * *k {
+                em.violation("c10:domain-generator-known-dlog", format!("the generator of a domain string is {}(domain)·G: its discrete logarithm is public, so pseudonyms of different domains are related by public scalars", name), json!({"domain": hexs(&domains[i]), "scalar": name}));
+            }
+        }
+        for j in 0..domains.len() {
+            if i != j && gens[i] == gens[j] {
+                em.violation("c10:domain-generators-collide", "two domain strings give the same generator".to_string(), json!({"a": hexs(&domains[i]), "b": hexs(&domains[j])}));
+            }
+        }
+    }
+    // end to end on one credential: accepted presentations for domains A and B, decrypted pseudonyms compared through the catalogue
+    for variant in [false, true] {
+        let ci = 1 + rng.below(3) as usize;
+        let mix = Mix { n_creds: 1, n_claims: 4, age: rng.range(0, 90), disclosed: vec![vec![]], verenc: Some((ci, variant)), ..Default::default() };
+        let scn = Scn::<S>::build(rng, &mix);
+        let sk = scn.issuers[0].verifiable_decryption_key.clone();
+        let mut ps: Vec<Option<G1Projective>> = vec![];
+        for g in gens.iter().take(2) {
+            let schema = with_generator(&scn.schema, *g);
+            let d = match call(|| Presentation::create(&scn.credentials, &schema, &scn.nonce)) {
+                Out::Ok(p) if call(|| p.verify(&schema, &scn.nonce)).is_ok() => p.proofs.values().find_map(|pr| match pr {
+                    PresentationProofs::VerifiableEncryption(v) => Some(v.decrypt(&sk)),
+                    _ => None,
+                }),
+                _ => None,
+            };
+            ps.push(d);
+        }
+        em.oracle_case(&format!("{} cross-domain pseudonyms allow={}", suite, variant));
+        if let (Some(Some(pa)), Some(Some(pb))) = (ps.get(0), ps.get(1)) {
+            em.count("cross-domain:pairs");
+            if pa == pb {
+                em.violation("c10:pseudonym-collides-across-generators", format!("{}: two domains give the same pseudonym", suite), scn.replay(json!({"suite": suite})));
+            }
+            for ((name, ka), (_, kb)) in pubs[0].iter().zip(pubs[1].iter()) {
+                if let Some(inv) = Option::<Scalar>::from(ka.invert()) {
+                    if *pb == *pa * (*kb * inv) {
+                        em.violation("c10:pseudonyms-related-across-domains", format!("{}: pseudonym in domain B = pseudonym in domain A · {}(B)/{}(A): the holder is linkable across domains from public data", suite, name, name), scn.replay(json!({"suite": suite, "scalar": name, "domains": [hexs(&domains[0]), hexs(&domains[1])]})));
+                    }
+                }
+            }
+        } else {
+            em.violation("c10:honest-rejected", format!("{}: honest presentation under a domain generator not created / accepted", suite), scn.replay(json!({"suite": suite})));
+        }
+    }
+}
+
 pub fn gen_c10(em: &mut Emitter, rng: &mut Rng) {
     em.rule = "both encryption statements on every claim type, with and without scalar decryption, G1 and random message generators: honest runs \
                (accepted; decrypt = m·M; decrypt_scalar = m; decrypt_and_verify = the signed claim; stable pseudonym per generator); deviating holders: \
                decryptable part omitted under the verifier's transcript (steered prover), a hand-written holder decomposing the scalar into the bytes of \
-               m + r or of another value, generator field swapped in the encrypt-and-decrypt proof; scalar decryption of values whose encodings cover all 256 byte values (negative numbers, r-1, 255)".into();
+               m + r or of another value, generator field swapped in the encrypt-and-decrypt proof; scalar decryption of values whose encodings cover all 256 byte values (negative numbers, r-1, 255); \
+               domain generators (`create_domain_proof_generator`): stable, distinct, not k·G for any of ~30 publicly computable scalars k of the domain string, \
+               and the decrypted pseudonyms of one credential in two domains not related by such scalars".into();
     suite_run::<Bbs>(em, rng, "bbs");
     suite_run::<Ps>(em, rng, "ps");
     let base = 2 * em.n(10, 100);
@@ -453,5 +550,11 @@ pub fn gen_c10(em: &mut Emitter, rng: &mut Rng) {
     }
     if em.mine(base + 1) {
         byte_coverage::<Ps>(em, &mut rng.sub(7002), "ps");
+    }
+    if em.mine(base + 2) {
+        domain_pseudonyms::<Bbs>(em, &mut rng.sub(7003), "bbs");
+    }
+    if em.mine(base + 3) {
+        domain_pseudonyms::<Ps>(em, &mut rng.sub(7004), "ps");
     }
 }
